@@ -1,6 +1,6 @@
 """C11 -- merging droplets conserves volume and centre of mass."""
 from contracts import droplets as dr, lemmas, spherical as sp
-from pyvc.bounded import Bounded, ContractSampling
+from pyvc.bounded import Bounded, ContractSampling, LeanCrossCheck
 
 LEVEL = "proof"
 LEVEL_TEXT = 'The interface-width accessors the width clause rests on are under contract (a width of exactly 0 is a width, None / NaN is `unset`). Both merge_data closures and DropletBase.merge are verified for all real radii/positions/widths with positive total volume, dims 1-3 and every aliasing pattern of (drop1, drop2, out): volume additivity, volume-weighted centre, mean width, frame conditions and in-place/out-of-place object identity; operand-order independence, uniqueness and grouping independence are z3 lemmas over the contract. The compiled path is sampled against the Python path (bounded stand-in).'
@@ -62,3 +62,4 @@ class JitMerge(Bounded):
 BOUNDED = [ContractSampling("merge-contracts-sampled", CONTRACTS[:3] + [dr.SetState().ident, dr.WidthSetter().ident],
                             "each case (dimension x aliasing / class x inplace) on 8 (quick) / 120 (thorough) seeded operand sets"),
            JitMerge()]
+BOUNDED.append(LeanCrossCheck())
